@@ -60,6 +60,7 @@ type Obligation struct {
 	MustFail bool
 	Pos      string
 	Query    string
+	Cases    []string
 	findingKs []string
 	xDecls   []string
 	xFacts   []string
